@@ -5,37 +5,37 @@ import json, sys
 
 CHECKS = {
  "C19": dict(
-   text="Thin structural check of the Merkle tree: builder, prover and verifier agree on how a node is paired with its sibling (left-first hashing, odd index takes the element before it, even the one after, last node of an odd level pairs with itself); the three level walks step with the same expressions (ceil(size/2), offset + size, index halving; loop bounds consistent); the prover reads the right neighbour only under the strict in-level test; ComputeTree and SetTree establish the same fields, a path has levels-1 elements, the root is the last element. Arithmetic is compared after normalising equivalent spellings (x/2, x>>1, (x-x&1)/2). Further: ComputeTree stores nodes only into a slice it allocated, because GetTree/SetTree share the slice (FRESH-tree); a rejected SetTree leaves the receiver unchanged (DOM-atomic).",
+   text="Thin structural check of the Merkle tree: builder, prover and verifier agree on how a node is paired with its sibling (left-first hashing, odd index takes the element before it, even the one after, last node of an odd level pairs with itself); the three level walks step with the same expressions (ceil(size/2), offset + size, index halving; loop bounds consistent); the prover reads the right neighbour only under the strict in-level test; ComputeTree and SetTree establish the same fields, a path has levels-1 elements, the root is the last element. Arithmetic is compared after normalising equivalent spellings (x/2, x>>1, (x-x&1)/2). Further: ComputeTree stores nodes only into a slice it allocated, because GetTree/SetTree share the slice (FRESH-tree); a rejected SetTree leaves the receiver unchanged (DOM-atomic). The comparison with the root is the verifier's only comparison of hash strings.",
    note="Does not decide that every path verifies for every leaf count and index, nor that it fails for another leaf: that is index arithmetic over runtime values and is better served by exhaustive enumeration (another technique family). What is decided are agreement conditions between the three routines, each necessary for honest paths to verify.",
    technique="sibling-implementation agreement with arithmetic normalisation, strict-guard dominance on go/ssa",
    ref="DESIGN.md section 5 C19 / section 6"),
  "C15": dict(
-   text="Memory-safety discipline of the decoders, decided for every function in the decoder call closure: each index, slice, fixed-size decode destination and fixed-width read is discharged by a guard from a table of sound idioms holding on every feasible path, or reported; no explicit panic is reachable (six named exceptions, each with its precondition); pointers decoded from the wire are dereferenced only after a nil test; the recursive decoders advance their cursor before recursing. Further: the recursive decoders do constant work per level on recursively decoded subtrees (COST-linear).",
+   text="Memory-safety discipline of the decoders, decided for every function in the decoder call closure: each index, slice, fixed-size decode destination and fixed-width read is discharged by a guard from a table of sound idioms holding on every feasible path, or reported; no explicit panic is reachable (six named exceptions, each with its precondition); pointers decoded from the wire are dereferenced only after a nil test; the recursive decoders advance their cursor before recursing. Further: the recursive decoders do constant work per level on recursively decoded subtrees (COST-linear). No unchecked type assertion to a concrete node kind occurs in the decoder closure unless the same value tested to hold it.",
    note="Does not decide the behaviour of the CBOR and msgp libraries on hostile input (third-party). An idiom outside the guard table is reported as a violation (possible false alarm, by design). Termination is decided only as 'one element consumed per recursive call'.",
    technique="guard-table discharge of bounds obligations over go/ssa with feasible-path facts, call-closure panic reachability, nil-test dominance",
    ref="DESIGN.md section 5 C15"),
  "C09": dict(
-   text="Structural necessary conditions for weight/ownership/root following content, decided on every path of insert, delete, getBlockProof and markToCollect: a collapsed position is resolved before it is interpreted as another kind or as empty; the weight change of the recursive descent is folded into the branch weight and returned; every store to a hashed field is accompanied by dirty=true; the weight-ordered descent enters a child only under block <= child weight and subtracts skipped weights. Further: the single-child scan of delete keeps its sentinels outside the slot range and its decision accepts exactly the slot numbers (DOM-sentinel). The subtree returned by every recursive insert/delete is linked back or returned (DEP-linkback); an update in place replaces bytes and weight together and its nothing-changed shortcut compares both (AGREE-update); error discipline (ERR-guard, ERR-dropped). CalcHash memoises soundly (DOM-memo); one byte order throughout (AGREE-endian). Shared-prefix nodes never get a possibly empty key (DOM-shortkey); resolved references are private freshly decoded nodes (FRESH-resolved).",
+   text="Structural necessary conditions for weight/ownership/root following content, decided on every path of insert, delete, getBlockProof and markToCollect: a collapsed position is resolved before it is interpreted as another kind or as empty; the weight change of the recursive descent is folded into the branch weight and returned; every store to a hashed field is accompanied by dirty=true; the weight-ordered descent enters a child only under block <= child weight and subtracts skipped weights. Further: the single-child scan of delete keeps its sentinels outside the slot range and its decision accepts exactly the slot numbers (DOM-sentinel). The subtree returned by every recursive insert/delete is linked back or returned (DEP-linkback); an update in place replaces bytes and weight together and its nothing-changed shortcut compares both (AGREE-update); error discipline (ERR-guard, ERR-dropped). CalcHash memoises soundly (DOM-memo); one byte order throughout (AGREE-endian). Shared-prefix nodes never get a possibly empty key (DOM-shortkey); resolved references are private freshly decoded nodes (FRESH-resolved). Walk-shape clauses of insert/delete (round 4): slot = K[l-1] for remainder K[l:] (AGREE-slot), descent below and removal of a shared-prefix node only where the whole key matched (DOM-shortmatch, DOM-deletematch), split children paired with the right values (AGREE-splitpair), fused keys are exact concatenations (AGREE-mergekey, symbolic evaluation), operator and operands of every weight computation (AGREE-weightop), reduction only after the remaining children were counted (DOM-reduce), node results stored only where the error tested nil (ORDER-errstore).",
    note="Does not decide the numeric equalities themselves (total weight, ownership interval, root equality with an independent computation).",
    technique="type-test exhaustiveness with an assumed-kind CFG walk, data-dependence and dominance checks on go/ssa",
    ref="DESIGN.md section 5 C09"),
  "C10": dict(
-   text="What the verifier recomputes and what it trusts, decided structurally: every success arm stores the verified child, sets dirty and recomputes the hash before returning, and VerifyBlockProof returns that recomputed hash; range checks guard every success; and 'navigated-by is a subset of committed-to' is checked per node kind. Two known findings: the branch hash binds only the sum of child weights while the verifier navigates by each claimed weight (forgeable, witness recorded); node kinds are not domain-separated in the hash pre-image. Further: serialisation (proof construction) reads cached hashes only after the node tested clean or was re-hashed (ORDER-hashfresh). The prover emits every node it walks (DOM-proofappend); serialised fields = deserialised fields (AGREE-persist); one byte order (AGREE-endian).",
+   text="What the verifier recomputes and what it trusts, decided structurally: every success arm stores the verified child, sets dirty and recomputes the hash before returning, and VerifyBlockProof returns that recomputed hash; range checks guard every success; and 'navigated-by is a subset of committed-to' is checked per node kind. Two known findings: the branch hash binds only the sum of child weights while the verifier navigates by each claimed weight (forgeable, witness recorded); node kinds are not domain-separated in the hash pre-image. Further: serialisation (proof construction) reads cached hashes only after the node tested clean or was re-hashed (ORDER-hashfresh). The prover emits every node it walks (DOM-proofappend); serialised fields = deserialised fields (AGREE-persist); one byte order (AGREE-endian). Copy/CopyRoot of a mutable node kind never hands out the node itself or its child objects and copies byte fields whole (FRESH-copy): proofs from a snapshot stay valid while the original changes.",
    note="Does not decide absence of other forgeries (a statement over all byte strings).",
    technique="ordering/dominance checks, range-guard facts, pre-image vs decision-input agreement on go/ssa",
    ref="DESIGN.md section 5 C10"),
  "C11": dict(
-   text="Structural necessary conditions for recoverability and safe garbage collection: every saved kind is put into the batch before a success return and after its dirty children; nothing reachable from Commit deletes from storage; DeleteNodes deletes only the `deleted` set and stages tempDeleted afterwards; the created-hash handler must purge every field that later feeds deletes; only saving/decoding entry points may clear the dirty flag. Known findings: tempDeleted is not purged; Root/GetBlockProof/GetPath clear dirty (witnesses recorded). Further: a previous hash is scheduled for collection only when it differs from the node's new hash (DOM-unchanged). Known finding REF-shared: nodes are stored and collected by content hash with no position component, so identical content under two keys is one stored node that a delete of either key collects. Error discipline of the weighted trie (ERR-guard, ERR-dropped); DOM-unchanged also covers the exported Commit (root).",
+   text="Structural necessary conditions for recoverability and safe garbage collection: every saved kind is put into the batch before a success return and after its dirty children; nothing reachable from Commit deletes from storage; DeleteNodes deletes only the `deleted` set and stages tempDeleted afterwards; the created-hash handler must purge every field that later feeds deletes; only saving/decoding entry points may clear the dirty flag. Known findings: tempDeleted is not purged; Root/GetBlockProof/GetPath clear dirty (witnesses recorded). Further: a previous hash is scheduled for collection only when it differs from the node's new hash (DOM-unchanged). Known finding REF-shared: nodes are stored and collected by content hash with no position component, so identical content under two keys is one stored node that a delete of either key collects. Error discipline of the weighted trie (ERR-guard, ERR-dropped); DOM-unchanged also covers the exported Commit (root). Copy/CopyRoot never shares mutable nodes (FRESH-copy); a node's hash buffer is never rewritten in place (FRESH-hashbuf).",
    note="Does not decide that a reopened trie is observationally identical; batches are the atomic unit by the property's quantifier.",
    technique="must-pass-through, call-graph effect confinement, provenance dataflow of deleted keys, field-set agreement on go/ssa",
    ref="DESIGN.md section 5 C11"),
  "C12": dict(
-   text="Thin structural check of the path export: every path through GetPath marks the requested keys (parallel or sequential loop) before assembling the export, for every root kind; writer and reader of the embedded shared-prefix child agree on field order, offsets and byte order; export and import walk in the same pre-order; markToCollect resolves collapsed positions. Further: every node on a requested key's path is marked for export also when the key is absent below it (DOM-marked); a storage-less trie keeps unresolved references instead of failing (DOM-nodb); exported nodes carry fresh hashes (ORDER-hashfresh). The importer links each decoded subtree only under a matching parent hash and re-checks the root hash (DOM-childhash); AGREE-persist.",
+   text="Thin structural check of the path export: every path through GetPath marks the requested keys (parallel or sequential loop) before assembling the export, for every root kind; writer and reader of the embedded shared-prefix child agree on field order, offsets and byte order; export and import walk in the same pre-order; markToCollect resolves collapsed positions. Further: every node on a requested key's path is marked for export also when the key is absent below it (DOM-marked); a storage-less trie keeps unresolved references instead of failing (DOM-nodb); exported nodes carry fresh hashes (ORDER-hashfresh). The importer links each decoded subtree only under a matching parent hash and re-checks the root hash (DOM-childhash); AGREE-persist. Node results are stored into live nodes only where the error tested nil (ORDER-errstore); above the collapse level CopyRoot keeps node kinds (AGREE-copyroot); the position-indexed marking walk selects slot key[pos] and continues at pos+1 / pos+len(node key) under the key comparison (AGREE-slotpos); the branch root of the parallel collection is marked before the workers start.",
    note="Does not decide root/weight equality after mirrored updates. Import-side hash checks are deliberately not armed (not necessary for honest exports).",
    technique="path-avoidance feasibility check, writer/reader layout agreement on go/ssa",
    ref="DESIGN.md section 5 C12"),
  "C13": dict(
-   text="Agreement between the two rollback entry points and the checkpoint: both reset created/tempDeleted/deleted and delete exactly `created` through one batch; SaveRoot records (hash, weight) of the root and resets `created`, Rollback restores from exactly those; commit must record a node as created under the same hash-changed condition as it records the old hash deleted. Known finding: created is recorded unconditionally (witness recorded). Further: what Rollback installs is decided by and built from the checkpoint only (DEP-checkpoint).",
+   text="Agreement between the two rollback entry points and the checkpoint: both reset created/tempDeleted/deleted and delete exactly `created` through one batch; SaveRoot records (hash, weight) of the root and resets `created`, Rollback restores from exactly those; commit must record a node as created under the same hash-changed condition as it records the old hash deleted. Known finding: created is recorded unconditionally (witness recorded). Further: what Rollback installs is decided by and built from the checkpoint only (DEP-checkpoint). Commit resets the created list only where the root tested dirty (DOM-createdkept); a node's hash buffer, which the checkpoint aliases, is never rewritten in place (FRESH-hashbuf).",
    note="Does not decide resolvability of every checkpoint node after rollback for every history.",
    technique="sibling agreement (field-reset sets, guard conditions) on go/ssa",
    ref="DESIGN.md section 5 C13"),
@@ -45,22 +45,22 @@ CHECKS = {
    technique="error-path return classification with feasible-path facts, loop/counter structure check, sentinel-set agreement, provenance dataflow (FRESH) on go/ssa",
    ref="DESIGN.md section 5 C17"),
  "C14": dict(
-   text="Addressing and codec agreement decided structurally: at every store write site the key is the hash of the very node written (insertNode stamp-hash-put, UpdateChanges keys[i]=hash(nodes[i]), persistent store Encode() under the given key, memory/layered stores pass key and node unchanged); the type-code tables of writer and reader are inverse; origin tracker and node header are written and read in the same (byte order, field) sequence; per node type separators written = separators scanned, fields written and read in the same order, child keys hex on both sides, and separator-unsafe fields only after the last separator. Further: no trie operation edits a store-owned node object in place (FRESH-node), which would leave the memory store with an entry not addressed by its own hash. The fields each node kind persists are exactly the fields its decoder restores and its structural copy copies (AGREE-fieldset).",
+   text="Addressing and codec agreement decided structurally: at every store write site the key is the hash of the very node written (insertNode stamp-hash-put, UpdateChanges keys[i]=hash(nodes[i]), persistent store Encode() under the given key, memory/layered stores pass key and node unchanged); the type-code tables of writer and reader are inverse; origin tracker and node header are written and read in the same (byte order, field) sequence; per node type separators written = separators scanned, fields written and read in the same order, child keys hex on both sides, and separator-unsafe fields only after the last separator. Further: no trie operation edits a store-owned node object in place (FRESH-node), which would leave the memory store with an entry not addressed by its own hash. The fields each node kind persists are exactly the fields its decoder restores and its structural copy copies (AGREE-fieldset). In Clone/CloneNode a value read from field F of the source reaches field F of the copy, through getters, setters, constructors and interface calls (AGREE-clonefields).",
    note="Does not decide byte-exact round trip for every value. AGREE-fields reads the codec functions' syntax (typed AST) and accepts only constant-bound loops; other shapes are reported as undecided.",
    technique="writer/reader skeleton agreement over typed AST and go/ssa, key/index agreement at store write sites",
    ref="DESIGN.md section 5 C14"),
  "C01": dict(
-   text="Totality and pre-condition clauses of the map behaviour, decided on every path: each node-kind dispatch of lookup/insert/delete/iterate has an arm for every storable kind, no such arm is a panic and no panicking default is reachable with a nil node; Insert locks or mutates only after rejecting over-size values and routing nil/empty values to Delete; deleting at a value-less branch, under a mismatching leaf or below a nil child reports 'not present'; no extension node is ever built with an empty path (which would hide its subtree from lookups). Further: only a value-less branch is replaced by its only child (DOM-lift); a node the rebuilt trie still references is never handed to deleteNode (WHO-livedelete). The node codecs agree on separators and field order (AGREE-fields, see C14). Error discipline of the trie operations: the branch taken when a call failed returns a non-nil error, no error of a trie/store operation is dropped (ERR-guard, ERR-dropped).",
+   text="Totality and pre-condition clauses of the map behaviour, decided on every path: each node-kind dispatch of lookup/insert/delete/iterate has an arm for every storable kind, no such arm is a panic and no panicking default is reachable with a nil node; Insert locks or mutates only after rejecting over-size values and routing nil/empty values to Delete; deleting at a value-less branch, under a mismatching leaf or below a nil child reports 'not present'; no extension node is ever built with an empty path (which would hide its subtree from lookups). Further: only a value-less branch is replaced by its only child (DOM-lift); a node the rebuilt trie still references is never handed to deleteNode (WHO-livedelete). The node codecs agree on separators and field order (AGREE-fields, see C14). Error discipline of the trie operations: the branch taken when a call failed returns a non-nil error, no error of a trie/store operation is dropped (ERR-guard, ERR-dropped). Walk-shape clauses (round 4): the path element that selects a branch slot is exactly the one the remainder skips (AGREE-childslot); 'this node is the entry for the key' is decided only under the comparison that establishes it, in lookup, insert and delete, including every walk below an extension (DOM-keymatch); a value is put on a new branch only where its key ends there (DOM-valueat); a node that moves up gets exactly what its vanished parent consumed in front of its own path (AGREE-mergepath, symbolic concatenation); a branch is dissolved only under the matching child count (DOM-childcount); the node accessors hand out fresh buffers (FRESH-bytes).",
    note="Does not decide that lookups return the last stored value for every history (path arithmetic and slicing are value-level), nor hex validation of paths (outside the quantifier). The 'non-nil node when no error' fact about getNode is assumed (named results, not constants).",
    technique="type-dispatch exhaustiveness + nil-result summaries, path-sensitive guard facts, non-emptiness discharge table on go/ssa",
    ref="DESIGN.md section 5 C01"),
  "C02": dict(
-   text="What the root hash is computed from and when, decided structurally: the three node kinds hash little-endian origin || exactly the fields they persist (same encode function object for hashing and storing); insertNode stamps the origin before hashing and stores under that hash; branch arms that clear a slot read the child count and value presence (necessary for canonical collapse); no empty-path extension is constructed. The defect this rule found (removing a branch's value never inspected the child count) is repaired in /repo (fix: a175b31). Further: every key installed as an extension's child is provably the key of a branch (DEP-extchild). A valued branch that loses its last child becomes a leaf (DEP-canon leaf clause).",
+   text="What the root hash is computed from and when, decided structurally: the three node kinds hash little-endian origin || exactly the fields they persist (same encode function object for hashing and storing); insertNode stamps the origin before hashing and stores under that hash; branch arms that clear a slot read the child count and value presence (necessary for canonical collapse); no empty-path extension is constructed. The defect this rule found (removing a branch's value never inspected the child count) is repaired in /repo (fix: a175b31). Further: every key installed as an extension's child is provably the key of a branch (DEP-extchild). A valued branch that loses its last child becomes a leaf (DEP-canon leaf clause). A node that moves up when delete removes its parent gets exactly the consumed path elements in front of its own path (AGREE-mergepath).",
    note="Does not decide equality with an independent implementation for every content, full history independence, or collision resistance. DEP-canon is a necessary condition only (reads of GetNumChildren/HasValue), not proof of canonical restructuring.",
    technique="sibling skeleton agreement, ordering/dominance checks and must-depend-on reads on go/ssa",
    ref="DESIGN.md section 5 C02"),
  "C05": dict(
-   text="Structural necessary conditions for dead-node records and pruning, decided on every path: AddChange cancels the dead record of re-created content on every path and dead records are keyed by the recorded node's hash; every node hash starts with the node's origin; the pruner forwards a record only under the strict test round < version, deletes only keys/rounds that came from forwarded records, drops records only after all node deletes, and writer/reader/deleter agree on record key codec (big-endian) and column families. Further: WHO-livedelete and DOM-samekey (see C04): no live hash enters the dead set through a kept child or an unchanged re-write. The dead-node record of a round is built only from this execution's nodes (DEP-recordonly); DOM-mergeall.",
+   text="Structural necessary conditions for dead-node records and pruning, decided on every path: AddChange cancels the dead record of re-created content on every path and dead records are keyed by the recorded node's hash; every node hash starts with the node's origin; the pruner forwards a record only under the strict test round < version, deletes only keys/rounds that came from forwarded records, drops records only after all node deletes, and writer/reader/deleter agree on record key codec (big-endian) and column families. Further: WHO-livedelete and DOM-samekey (see C04): no live hash enters the dead set through a kept child or an unchanged re-write. The dead-node record of a round is built only from this execution's nodes (DEP-recordonly); DOM-mergeall. Every successful return of RecordDeadNodes/saveDeadNodes went through the store write, so an empty set still replaces the round's record (DOM-recordwritten).",
    note="Does not decide reachability of recorded nodes from later roots (a graph property of runtime content). The RocksDB binding is analysed as a named API. Channel hand-over between the iterator goroutine and the deleter is assumed faithful.",
    technique="must-pass-through and strict-guard checks, provenance dataflow of deleted keys, writer/reader codec agreement on go/ssa",
    ref="DESIGN.md section 5 C05"),
@@ -70,37 +70,37 @@ CHECKS = {
    technique="who-may-call/effect confinement over the repo call graph, path-sensitive must-pass-through, index/key agreement on go/ssa",
    ref="DESIGN.md section 5 C04"),
  "C03": dict(
-   text="Layering, guard and copy discipline that child-trie isolation rests on, decided on every path: the layered store never writes its parent level (deletes only under PropagateDeletes); a merge replays changes only after the start-root comparison succeeded and only from a direct child; the memory store keeps CloneNode() copies under the given key; and no trie operation writes in place to node memory that derives from the store, the node cache, a pending change or a caller (interprocedural source-label dataflow). Further: a merge never reports success on a path where the parent's root is neither equal to nor set to the child's (DOM-adopt). The level store's lookups never read its delete tombstones (WHO-tombstones); the merge replays every change (DOM-mergeall).",
+   text="Layering, guard and copy discipline that child-trie isolation rests on, decided on every path: the layered store never writes its parent level (deletes only under PropagateDeletes); a merge replays changes only after the start-root comparison succeeded and only from a direct child; the memory store keeps CloneNode() copies under the given key; and no trie operation writes in place to node memory that derives from the store, the node cache, a pending change or a caller (interprocedural source-label dataflow). Further: a merge never reports success on a path where the parent's root is neither equal to nor set to the child's (DOM-adopt). The level store's lookups never read its delete tombstones (WHO-tombstones); the merge replays every change (DOM-mergeall). The byte slices handed out by MarshalMsg/Encode/GetHashBytes/GetValueBytes are new buffers on every return (FRESH-bytes), which FRESH-node assumes.",
    note="Does not decide equality of parent and child views after arbitrary histories. Constructors are modelled as returning fresh objects (slices handed to them are assumed not written later through the new node); aliasing is label-based, not a points-to analysis. One named exception: re-stamping the origin of replayed child nodes in mergeChanges (idempotent at equal versions).",
    technique="call-site effect confinement, path-sensitive guard checks, interprocedural provenance dataflow (FRESH) on go/ssa",
    ref="DESIGN.md section 5 C03"),
  "C16": dict(
-   text="Race freedom of one state trie by guarded-by discipline, decided for every call path from the trie operations named in the property and the exported store/collector methods: root, deleteNodes, missing-key list, store maps, level links and collector maps only under their owner's mutex in the required mode (writes need the write lock; goroutine bodies start with nothing held); constructor-only fields never rewritten; Insert/Delete/MergeChanges/MergeDB are single critical sections (one write-lock acquisition dominating every root access, released by defer). Every mutex acquisition is released on every path to a return, every release is preceded by its acquisition (PAIR-unlock).",
+   text="Race freedom of one state trie by guarded-by discipline, decided for every call path from the trie operations named in the property and the exported store/collector methods: root, deleteNodes, missing-key list, store maps, level links and collector maps only under their owner's mutex in the required mode (writes need the write lock; goroutine bodies start with nothing held); constructor-only fields never rewritten; Insert/Delete/MergeChanges/MergeDB are single critical sections (one write-lock acquisition dominating every root access, released by defer). Every mutex acquisition is released on every path to a return, every release is preceded by its acquisition (PAIR-unlock). No mutex is re-acquired by the goroutine that holds it on the same object (LOCK-reentrant).",
    note="Does not decide linearizability of histories (needs executions). SetVersion is outside the property's operation set and is not an entry. Locks are identified per (owner type, field). Trusted: go/ssa; own CHA call graph with function values resolved through parameters.",
    technique="interprocedural must-lockset analysis over go/ssa + repo call graph, guard table per field, dominance check of critical sections",
    ref="DESIGN.md section 5 C16"),
  "C20": dict(
-   text="Structural necessary conditions of the in-memory log ring, decided on every path from the logger API: cursor, slot values and ring traversals only under the core's mutex (of the same core value); no core is built with a by-value copy of another core's cursor (one cursor, one lock per ring); entry objects are never rewritten once stored; Write stores at the cursor and then advances by exactly one Next(). GetLogs stores what it visits into its result; only the root core writes the ring (SNAPSHOT-all, AGREE-share clauses); lock pairing (PAIR-unlock).",
+   text="Structural necessary conditions of the in-memory log ring, decided on every path from the logger API: cursor, slot values and ring traversals only under the core's mutex (of the same core value); no core is built with a by-value copy of another core's cursor (one cursor, one lock per ring); entry objects are never rewritten once stored; Write stores at the cursor and then advances by exactly one Next(). GetLogs stores what it visits into its result; only the root core writes the ring (SNAPSHOT-all, AGREE-share clauses); lock pairing (PAIR-unlock). The byte view of a pooled encoder buffer is never returned, stored or used after Free (REF-pooled); the package builds no sampling or level-raising core in front of the memory core (WHO-filter).",
    note="Does not decide 'exactly the most recent N, newest first' (index arithmetic in GetLogs) for every history. Trusted: go/ssa; container/ring and zap as named APIs; lock identity per (owner type, field) plus a same-receiver check inside each function.",
    technique="must-lockset analysis + constructor/aliasing audit + store-freshness and ordering checks on go/ssa",
    ref="DESIGN.md section 5 C20"),
  "C18": dict(
-   text="Checked-arithmetic discipline of core/currency decided on every feasible path: each integer + - * / %, each numeric conversion and the panicking decimal constructor is discharged by an accepted guard idiom (operand wrap check, subtrahend<=minuend, post-division check over a non-zero factor, non-zero divisor, sign/NaN/2^64 rejection before float->uint64, NaN/Inf rejection before NewFromFloat) or reported; plus an operator table of the named helpers. The package is small, loop-free and pure, so this covers nearly the whole 'never wraps, saturates or panics' clause. Further: float-taking helpers report success only after the argument tested a number and bounded from above, or by delegating a value computed from it (ARG-finite). A float argument folded into a product tested not negative first (ARG-finite sign clause).",
+   text="Checked-arithmetic discipline of core/currency decided on every feasible path: each integer + - * / %, each numeric conversion and the panicking decimal constructor is discharged by an accepted guard idiom (operand wrap check, subtrahend<=minuend, post-division check over a non-zero factor, non-zero divisor, sign/NaN/2^64 rejection before float->uint64, NaN/Inf rejection before NewFromFloat) or reported; plus an operator table of the named helpers. The package is small, loop-free and pure, so this covers nearly the whole 'never wraps, saturates or panics' clause. Further: float-taking helpers report success only after the argument tested a number and bounded from above, or by delegating a value computed from it (ARG-finite). A float argument folded into a product tested not negative first (ARG-finite sign clause). ParseZCN converts its argument with decimal.NewFromFloat and no other constructor, so the too-many-decimals rejection stays reachable.",
    note="Does not decide the decimal-exponent logic of ParseZCN/ToZCN (library semantics) nor the format/parse round trip; exactness is decided only as 'result of the promised operator on the parameters, reached only when the guard excludes wrap-around'. An idiom outside the guard table is reported as undecided. Trusted: go/ssa; structural equality of guard atoms.",
    technique="guard-table discharge of arithmetic instructions over go/ssa with feasible-path facts",
    ref="DESIGN.md section 5 C18"),
  "C08": dict(
-   text="Race freedom by guarded-by discipline and commit/publication order, decided statically for every call path from the exported cache API: plain maps and rewritable fields only under their owner's mutex in the required mode (interprocedural must-lockset), sync/atomic counters never accessed plainly, constructor-only fields never rewritten; every commit-path write into the shared LRU maps under the state cache's lock; the block's ancestor link published after all of the block's keys. Further: the data handed out belongs to the entry whose tombstone flag was tested, also after the own-entry re-check (DOM-tombstone). Every mutex acquisition is released on every path to a return, every release is preceded by its acquisition (PAIR-unlock).",
+   text="Race freedom by guarded-by discipline and commit/publication order, decided statically for every call path from the exported cache API: plain maps and rewritable fields only under their owner's mutex in the required mode (interprocedural must-lockset), sync/atomic counters never accessed plainly, constructor-only fields never rewritten; every commit-path write into the shared LRU maps under the state cache's lock; the block's ancestor link published after all of the block's keys. Further: the data handed out belongs to the entry whose tombstone flag was tested, also after the own-entry re-check (DOM-tombstone). Every mutex acquisition is released on every path to a return, every release is preceded by its acquisition (PAIR-unlock). No mutex is re-acquired by the goroutine that holds it on the same object (LOCK-reentrant, receiver-sensitive over call chains).",
    note="Does not decide that every interleaving of the deliberately lock-free StateCache.Get with a commit returns the block-tree value (needs exploring interleavings). Locks are identified per (owner type, field), not per instance. Trusted: go/ssa, CHA call graph; the LRU library is internally synchronised.",
    technique="interprocedural must-lockset analysis over go/ssa + repo call graph, guard table per field, CFG reachability for publication order",
    ref="DESIGN.md section 5 C08"),
  "C06": dict(
-   text="Structural necessary conditions of correct cache answers, decided on every feasible CFG path: an existing per-key versions map is never replaced when (re)installing it; a handed-out entry is reached only with its tombstone tested false; each layer consults its own map before delegating (block layer continues at the previous block); the ancestor walk only follows the queried hash and stored links, memoises the found entry under the queried hash; entries are stored under the key/hash given and remove arms store deleted=true. Further: writes and removals are recorded in the layer's pending map on every path (DOM-writekept); the tombstone test and the data read concern the same entry (rewrite-sensitive DOM-tombstone). One known finding (CAP-absence): the per-key versions map is a recency-evicting LRU while the walk reads absence as 'not written' - stale hit after eviction, witness recorded. The two results of every lookup agree (RET-pair); lookup results of the cache maps are asserted only where found (DOM-found). A write stores a fresh Clone (FRESH-write); commit publishes every entry of the block (DOM-commitall).",
+   text="Structural necessary conditions of correct cache answers, decided on every feasible CFG path: an existing per-key versions map is never replaced when (re)installing it; a handed-out entry is reached only with its tombstone tested false; each layer consults its own map before delegating (block layer continues at the previous block); the ancestor walk only follows the queried hash and stored links, memoises the found entry under the queried hash; entries are stored under the key/hash given and remove arms store deleted=true. Further: writes and removals are recorded in the layer's pending map on every path (DOM-writekept); the tombstone test and the data read concern the same entry (rewrite-sensitive DOM-tombstone). One known finding (CAP-absence): the per-key versions map is a recency-evicting LRU while the walk reads absence as 'not written' - stale hit after eviction, witness recorded. The two results of every lookup agree (RET-pair); lookup results of the cache maps are asserted only where found (DOM-found). A write stores a fresh Clone (FRESH-write); commit publishes every entry of the block (DOM-commitall). TransactionCache.Commit empties the pending map after the hand-over on every return (DOM-txreset).",
    note="Does not decide answers after LRU eviction nor equality with the block-tree oracle for every history (value-level). Trusted: go/ssa model; structural equality of tested atoms; third-party LRU as a named API.",
    technique="path-sensitive guard (must-pass-through) checks on go/ssa CFG, provenance dataflow for hash/key sources",
    ref="DESIGN.md section 5 C06"),
  "C07": dict(
-   text="Structural necessary conditions of cache isolation decided on every CFG path: every Value crossing a cache-map boundary (caller->map, map->caller, txn->block->state) has a Clone() result as its only provenance; setValue/commit are reachable only from the commit entry points; every Clone() implementation is a deep (codec) copy. Breaking any of these shares a mutable value or leaks an uncommitted write. Further: DOM-writekept (see C06): what a transaction commits, including tombstones, always reaches the block's pending map. Lookups never store into a pending map (WHO-readonly, see C06). commit stores the block's entries and publishes its link, returning early only when already committed (DOM-commit); stored entries keep their key/hash and tombstones (KEY-same).",
+   text="Structural necessary conditions of cache isolation decided on every CFG path: every Value crossing a cache-map boundary (caller->map, map->caller, txn->block->state) has a Clone() result as its only provenance; setValue/commit are reachable only from the commit entry points; every Clone() implementation is a deep (codec) copy. Breaking any of these shares a mutable value or leaks an uncommitted write. Further: DOM-writekept (see C06): what a transaction commits, including tombstones, always reaches the block's pending map. Lookups never store into a pending map (WHO-readonly, see C06). commit stores the block's entries and publishes its link, returning early only when already committed (DOM-commit); stored entries keep their key/hash and tombstones (KEY-same). TransactionCache.Commit empties the pending map after the hand-over on every return (DOM-txreset).",
    note="Decides the copy-on-boundary, layering and deep-copy clauses only; 'after commit the values are what lookups return' is value-level and not decided. Trusted: go/types+go/ssa model of the source; CHA resolution of interface calls; third-party LRU treated as a named API.",
    technique="forward provenance dataflow on go/ssa (field-sensitive cells), repo call-graph who-may-call, Clone() implementation audit",
    ref="DESIGN.md section 5 C07"),
